@@ -303,6 +303,14 @@ func (s *vScanner) Scan(ctx context.Context, r *scan.Request) (res scan.Result, 
 		case <-time.After(time.Millisecond):
 		}
 		res = &vResult{I: i}
+	case 6:
+		// very slow positive: the probe alone lasts longer than the exit delay (400 ms against 300 ms),
+		// so the scan as a whole does too; what it detects must still be printed
+		select {
+		case <-ctx.Done():
+		case <-time.After(400 * time.Millisecond):
+		}
+		res = &vResult{I: i}
 	case 0:
 		res = &vResult{I: i}
 	case 3:
